@@ -155,8 +155,9 @@ def multi_aba(rng):
                             {'name': 'pack', 'h': 'hp', 'mode': 'YES', 'perpack': True, 'validate': True}],
     }
     views = {
-        'has': {'name': 'has', 'keys': ['k1', 'k2', 'k3']}, 'get': {'name': 'get', 'keys': ['k1', 'k3']},
-        'meta': {'name': 'meta', 'keys': ['k2', 'k3']}, 'list': {'name': 'list'}, 'listpart': {'name': 'listpart'},
+        'has': {'name': 'has', 'keys': ['k1', 'k2', 'k3', 'k4']}, 'get': {'name': 'get', 'keys': ['k1', 'k3', 'k4']},
+        'meta': {'name': 'meta', 'keys': ['k2', 'k3', 'k4']}, 'list': {'name': 'list'}, 'listpart': {'name': 'listpart'},
+        'has1e': {'name': 'has', 'keys': ['k4'], 'single': True}, 'get1e': {'name': 'get', 'keys': ['k4'], 'single': True},
         'has1': {'name': 'has', 'keys': ['k3'], 'single': True}, 'get1': {'name': 'get', 'keys': ['k3'], 'single': True},
         'get1s': {'name': 'get', 'keys': ['k3'], 'single': 'stream'}, 'meta1': {'name': 'meta', 'keys': ['k3'], 'single': True},
     }
@@ -168,6 +169,12 @@ def multi_aba(rng):
                            {'name': 'clean', 'h': 'hp', 'vacuum': False}],
         'clean-vacuum': [{'name': 'clean', 'h': 'hp', 'vacuum': True}],
         'add': [{'name': 'add', 'h': 'h2', 'keys': ['k3'], 'via': 'bytes'}],
+        # the empty object alone: packing it appends no byte to the pack
+        'add-empty-pack-pp': [{'name': 'add', 'h': 'h2', 'keys': ['k4'], 'via': 'bytes'},
+                              {'name': 'pack', 'h': 'hp', 'mode': 'NO', 'perpack': True, 'validate': True}],
+        'add-empty-pack-clean': [{'name': 'add', 'h': 'h1', 'keys': ['k4'], 'via': 'stream'},
+                                 {'name': 'pack', 'h': 'hp', 'mode': 'NO', 'perpack': False, 'validate': True},
+                                 {'name': 'clean', 'h': 'hp', 'vacuum': False}],
     }
     out = []
     for setup in setups.values():
